@@ -320,6 +320,10 @@ def body_clip_mesh(ctx, mesh, variant, buffer, via, free=None, after_others=Fals
 
 def _check_mesh_mask(ctx, mask, via, variant, nodes, faces, expected, topology):
     nf = len(faces)
+    # the renumbering tables hold element numbers of meshes of any size (2**24 + 1 is a legal node number): a type
+    # that cannot represent every 32-bit index exactly would renumber large meshes wrongly
+    ctx.check(all(v.dtype.kind in 'iu' or v.dtype == numpy.dtype('float64') for v in mask.data_vars.values()),
+              'the renumbering tables are held in a type that represents every 32-bit element number exactly')
 
     def table(name):
         vals = mask[name].values
